@@ -44,7 +44,32 @@ func main() {
 		w := bufio.NewWriter(os.Stdout)
 		for i := 0; i < *n; i++ {
 			id := fmt.Sprintf("%s-%d-%d", name, *seed, i)
-			fmt.Fprintf(w, "%s %s | %s\n", name, id, st.gen(r, id, *tier))
+			// a generator that consults the code under test (to aim indices at the current length, say) must not take
+			// the whole run down with it when that code panics or hangs: the case is dropped, the rest is generated
+			type res struct {
+				s  string
+				ok bool
+			}
+			ch := make(chan res, 1)
+			go func() {
+				defer func() {
+					if recover() != nil {
+						ch <- res{"", false}
+					}
+				}()
+				ch <- res{st.gen(r, id, *tier), true}
+			}()
+			select {
+			case g := <-ch:
+				if g.ok {
+					fmt.Fprintf(w, "%s %s | %s\n", name, id, g.s)
+				} else {
+					fmt.Fprintf(os.Stderr, "generator panicked on case %s (dropped)\n", id)
+				}
+			case <-time.After(3 * time.Second):
+				fmt.Fprintf(os.Stderr, "generator hung on case %s (dropped); remaining cases of this stream not generated\n", id)
+				i = *n // the abandoned goroutine still owns the random source
+			}
 		}
 		w.Flush()
 	case "run":
